@@ -34,6 +34,8 @@ def tyname(t):
         return "?" + tyname(t[1])
     if t[0] == "enum":
         return t[1]
+    if t[0] == "ptr":
+        return ("^mut " if t[1] else "^") + tyname(t[2])
     raise ValueError(t)
 
 
@@ -58,6 +60,7 @@ class Gen:
         self.budget = 0
         self.noprint = False      # helper functions are pure: they are called inside expressions
         self.has_try = False
+        self.ptr_helpers = False
 
     def fresh(self, p="v"):
         self.n += 1
@@ -236,6 +239,163 @@ class Gen:
             ss.append({"s": "print", "ty": BOOL, "x": {"e": "isvar", "x": {"e": "var", "n": res, "ty": OPT_I32}, "k": 2, "sty": OPT_I32}})
         return ss
 
+    # ---------------------------------------------------------------- pointers
+    def int_lit(self, t, v):
+        return {"e": "int", "ty": jty(t), "b": list((v % (1 << (8 * t[1]))).to_bytes(t[1], "little"))}
+
+    def ptr_helper_fns(self):
+        """fixed helper functions that store / read through pointer parameters (frames below the
+        caller's are written from above; h_rec passes its pointer down several frames)"""
+        def var(n):
+            return {"e": "var", "n": n}
+        def der(n, auto=False):
+            return {"e": "deref", "x": var(n), "auto": auto}
+        def dpl(n, auto=False):
+            return {"l": "deref", "p": var(n), "auto": auto}
+        c = lambda v: self.int_lit(I32, v)
+        k1, k2, k3 = self.r.randrange(2, 9), self.r.randrange(1, 100), self.r.randrange(1, 50)
+        blk = lambda ss, tail: {"e": "blk", "label": "", "ss": ss, "tail": tail}
+        fns = []
+        # h_i :: (q: ^mut i32, v: i32) -> i32 { old : i32 : q^; q^ = q^ * k1 + v; old }
+        fns.append({"name": "h_i", "params": [{"n": "q", "ty": ("ptr", True, I32)}, {"n": "v", "ty": I32}], "ret": I32,
+                    "body": blk([{"s": "let", "n": "old", "x": der("q"), "ty": I32, "mut": False},
+                                 {"s": "set", "l": dpl("q"), "x": {"e": "bin", "op": "add", "l": {"e": "bin", "op": "mul", "l": der("q"), "r": c(k1)}, "r": var("v")}}],
+                                var("old"))})
+        # h_P :: (q: ^mut P, v: u8) -> i32 { q.b = v; q^.a = q.a + k2; q.a }
+        fns.append({"name": "h_P", "params": [{"n": "q", "ty": ("ptr", True, REC_P)}, {"n": "v", "ty": U8}], "ret": I32,
+                    "body": blk([{"s": "set", "l": {"l": "fld", "x": dpl("q", True), "f": "b"}, "x": var("v")},
+                                 {"s": "set", "l": {"l": "fld", "x": dpl("q"), "f": "a"},
+                                  "x": {"e": "bin", "op": "add", "l": {"e": "fld", "x": der("q", True), "f": "a"}, "r": c(k2)}}],
+                                {"e": "fld", "x": der("q", True), "f": "a"})})
+        # h_A :: (q: ^mut [3]i32, k: i32) -> i32 { q[0] = q[1] + k; q^[2] ~= k3; q^[0] }
+        i = lambda n: self.index_lit(n)
+        fns.append({"name": "h_A", "params": [{"n": "q", "ty": ("ptr", True, ("arr", 3, I32))}, {"n": "k", "ty": I32}], "ret": I32,
+                    "body": blk([{"s": "set", "l": {"l": "idx", "a": dpl("q", True), "i": i(0)},
+                                  "x": {"e": "bin", "op": "add", "l": {"e": "idx", "a": der("q", True), "i": i(1)}, "r": var("k")}},
+                                 {"s": "cset", "op": "xor", "l": {"l": "idx", "a": dpl("q"), "i": i(2)}, "x": c(k3)}],
+                                {"e": "idx", "a": der("q"), "i": i(0)})})
+        # g_P :: (q: ^P) -> i32 { q.a + i32.(q^.b) }
+        fns.append({"name": "g_P", "params": [{"n": "q", "ty": ("ptr", False, REC_P)}], "ret": I32,
+                    "body": blk([], {"e": "bin", "op": "add", "l": {"e": "fld", "x": der("q", True), "f": "a"},
+                                     "r": {"e": "cast", "ty": jty(I32), "x": {"e": "fld", "x": der("q"), "f": "b"}}})})
+        # h_rec :: (q: ^mut i32, n: i32) { if n > 0 { q^ = q^ + n; h_rec(q, n - 1); } }
+        fns.append({"name": "h_rec", "params": [{"n": "q", "ty": ("ptr", True, I32)}, {"n": "n", "ty": I32}], "ret": None,
+                    "body": blk([{"s": "if", "c": {"e": "bin", "op": "gt", "l": var("n"), "r": c(0)},
+                                  "t": blk([{"s": "set", "l": dpl("q"), "x": {"e": "bin", "op": "add", "l": der("q"), "r": var("n")}},
+                                            {"s": "expr", "x": {"e": "call", "f": "h_rec", "args": [var("q"), {"e": "bin", "op": "sub", "l": var("n"), "r": c(1)}]}}],
+                                           NONE),
+                                  "f": NONE}], NONE)})
+        return fns
+
+    def stmt_ptr(self):
+        """statements that take a pointer to (part of) a mutable variable and store / read through
+        it, through the variable itself, and through helper functions"""
+        r = self.r
+        ok = lambda vt, m: m and (vt in (I32, REC_P, REC_Q, ("arr", 3, I32)) or vt == ("arr", 2, REC_P))
+        cands = self.vars_of(ok)
+        ss = []
+        if not cands or r.random() < 0.3:
+            t = r.choice([I32, REC_P, REC_Q, ("arr", 3, I32), ("arr", 2, REC_P)])
+            x = self.fresh()
+            ss.append({"s": "let", "n": x, "x": self.expr(t), "ty": t, "mut": True})
+            self.declare(x, t, True)
+        else:
+            x, t, _ = r.choice(cands)
+        # the pointed-to place: the variable or a part of it
+        l = {"l": "var", "n": x}
+        while True:
+            if t[0] == "arr" and t != ("arr", 3, I32) or (t == ("arr", 3, I32) and r.random() < 0.4):
+                l = {"l": "idx", "a": l, "i": self.index_lit(r.randrange(t[1]))}
+                t = t[2]
+            elif t == REC_Q and r.random() < 0.7:
+                l = {"l": "fld", "x": l, "f": "p"}
+                t = REC_P
+            elif t == REC_P and r.random() < 0.4:
+                l = {"l": "fld", "x": l, "f": "a"}
+                t = I32
+            else:
+                break
+        pn = self.fresh("q")
+        ss.append({"s": "let", "n": pn, "x": {"e": "ref", "l": l, "m": True}, "ty": ("ptr", True, t), "mut": False})
+        pv = {"e": "var", "n": pn}
+        der = lambda auto=False: {"e": "deref", "x": pv, "auto": auto}
+        dpl = lambda auto=False: {"l": "deref", "p": pv, "auto": auto}
+        xv = lambda: self.read_of(l)
+
+        def show():
+            if t == I32:
+                return [{"s": "print", "x": r.choice([der(), xv()]), "ty": I32}]
+            if t == REC_P:
+                return [{"s": "print", "x": {"e": "fld", "x": der(r.random() < 0.5), "f": "a"}, "ty": I32},
+                        {"s": "print", "x": {"e": "fld", "x": r.choice([der(True), xv()]), "f": "b"}, "ty": U8}]
+            if t == REC_Q:
+                return [{"s": "print", "x": {"e": "fld", "x": {"e": "fld", "x": der(True), "f": "p"}, "f": "a"}, "ty": I32},
+                        {"s": "print", "x": {"e": "fld", "x": xv(), "f": "k"}, "ty": I64}]
+            return [{"s": "print", "x": {"e": "idx", "a": r.choice([der(True), der(), xv()]), "i": self.index_lit(k)}, "ty": I32}
+                    for k in range(3)]
+        for _ in range(r.randrange(2, 5)):
+            k = r.random()
+            if t == I32:
+                if k < 0.3:
+                    ss.append({"s": "set", "l": dpl(), "x": self.expr(I32)})
+                elif k < 0.5:
+                    ss.append({"s": "cset", "op": r.choice(["add", "mul", "xor"]), "l": dpl(), "x": self.expr(I32)})
+                elif k < 0.7:
+                    tmp = self.fresh()
+                    ss.append({"s": "let", "n": tmp, "x": {"e": "call", "f": "h_i", "args": [pv, self.expr(I32, 2)]}, "ty": I32, "mut": False})
+                    ss.append({"s": "print", "x": {"e": "var", "n": tmp}, "ty": I32})
+                elif k < 0.85:
+                    ss.append({"s": "expr", "x": {"e": "call", "f": "h_rec", "args": [pv, self.int_lit(I32, r.randrange(0, 4))]}})
+                else:
+                    ss.append({"s": "set", "l": l, "x": self.expr(I32)})      # through the variable itself
+            elif t == REC_P:
+                if k < 0.3:
+                    ss.append({"s": "set", "l": {"l": "fld", "x": dpl(r.random() < 0.5), "f": "a"}, "x": self.expr(I32)})
+                elif k < 0.45:
+                    ss.append({"s": "cset", "op": "add", "l": {"l": "fld", "x": dpl(True), "f": "b"}, "x": self.expr(U8)})
+                elif k < 0.6:
+                    ss.append({"s": "set", "l": dpl(), "x": self.expr(REC_P)})       # whole struct through the pointer
+                elif k < 0.8:
+                    tmp = self.fresh()
+                    ss.append({"s": "let", "n": tmp, "x": {"e": "call", "f": "h_P", "args": [pv, self.expr(U8, 2)]}, "ty": I32, "mut": False})
+                    ss.append({"s": "print", "x": {"e": "var", "n": tmp}, "ty": I32})
+                elif k < 0.9:
+                    ss.append({"s": "print", "x": {"e": "call", "f": "g_P", "args": [r.choice([pv, {"e": "ref", "l": l, "m": False}])]}, "ty": I32})
+                else:
+                    # a copy taken through the pointer does not follow later stores
+                    cp = self.fresh()
+                    ss.append({"s": "let", "n": cp, "x": der(), "ty": REC_P, "mut": False})
+                    ss.append({"s": "set", "l": {"l": "fld", "x": dpl(True), "f": "a"}, "x": self.expr(I32)})
+                    ss.append({"s": "print", "x": {"e": "fld", "x": {"e": "var", "n": cp}, "f": "a"}, "ty": I32})
+            elif t == REC_Q:
+                if k < 0.4:
+                    ss.append({"s": "set", "l": {"l": "fld", "x": {"l": "fld", "x": dpl(True), "f": "p"}, "f": "a"}, "x": self.expr(I32)})
+                elif k < 0.7:
+                    ss.append({"s": "set", "l": {"l": "fld", "x": dpl(), "f": "k"}, "x": self.expr(I64)})
+                else:
+                    ss.append({"s": "set", "l": {"l": "fld", "x": l, "f": "p"}, "x": self.expr(REC_P)})
+            else:
+                if k < 0.35:
+                    ss.append({"s": "set", "l": {"l": "idx", "a": dpl(r.random() < 0.5), "i": self.index_lit(r.randrange(3))}, "x": self.expr(I32)})
+                elif k < 0.5:
+                    ss.append({"s": "cset", "op": "sub", "l": {"l": "idx", "a": dpl(True), "i": self.index_lit(r.randrange(3))}, "x": self.expr(I32)})
+                elif k < 0.8:
+                    tmp = self.fresh()
+                    ss.append({"s": "let", "n": tmp, "x": {"e": "call", "f": "h_A", "args": [pv, self.expr(I32, 2)]}, "ty": I32, "mut": False})
+                    ss.append({"s": "print", "x": {"e": "var", "n": tmp}, "ty": I32})
+                else:
+                    ss.append({"s": "set", "l": {"l": "idx", "a": l, "i": self.index_lit(r.randrange(3))}, "x": self.expr(I32)})
+            ss += show()
+        return ss
+
+    def read_of(self, l):
+        """the expression reading place l (built from variables only)"""
+        if l["l"] == "var":
+            return {"e": "var", "n": l["n"]}
+        if l["l"] == "idx":
+            return {"e": "idx", "a": self.read_of(l["a"]), "i": l["i"]}
+        return {"e": "fld", "x": self.read_of(l["x"]), "f": l["f"]}
+
     def try_helper(self):
         """try_add :: (o: ?i32, d: i32) -> ?i32 { defer ..; v := o.try; v + d }  (the defer must run on both paths)"""
         return {"name": "try_add", "params": [{"n": "o", "ty": OPT_I32}, {"n": "d", "ty": I32}], "ret": OPT_I32,
@@ -331,6 +491,10 @@ class Gen:
             if not self.noprint and self.r.random() < 0.08:
                 self.budget -= 3
                 ss += self.stmt_sum()
+                continue
+            if self.ptr_helpers and not self.noprint and self.r.random() < 0.08:
+                self.budget -= 3
+                ss += self.stmt_ptr()
                 continue
             ss.append(self.stmt(allow_jump))
         self.scopes.pop()
@@ -458,6 +622,10 @@ class Gen:
                 self.budget -= 3
                 ss += self.stmt_sum()
                 continue
+            if self.ptr_helpers and not self.noprint and self.r.random() < 0.12:
+                self.budget -= 3
+                ss += self.stmt_ptr()
+                continue
             ss.append(self.stmt())
         tail = self.expr(ret) if ret is not None else NONE
         self.scopes.pop()
@@ -477,6 +645,8 @@ class Gen:
         self.noprint = False
         fns.append(self.try_helper())
         self.has_try = True
+        fns += self.ptr_helper_fns()
+        self.ptr_helpers = True
         main = self.function("main", [], I32, self.size)
         if self.want_fault:
             # one out-of-range access at the end of main, after everything else was printed
@@ -561,6 +731,10 @@ class Render:
             return "%s(%s, %s)" % ("#is_variant" if k == "isvar" else "#unwrap", self.expr(e["x"]), self.vty(e["sty"], e["k"]))
         if k == "try":
             return "%s.try" % self.expr(e["x"])
+        if k == "ref":
+            return "%s%s" % ("^mut " if e["m"] else "^", self.place(e["l"]))
+        if k == "deref":
+            return self.expr(e["x"]) + ("" if e.get("auto") else "^")
         raise ValueError(k)
 
     def vty(self, t, k):
@@ -574,6 +748,8 @@ class Render:
             return l["n"]
         if l["l"] == "idx":
             return "%s[%s]" % (self.place(l["a"]), self.expr(l["i"]))
+        if l["l"] == "deref":
+            return self.expr(l["p"]) + ("" if l.get("auto") else "^")
         return "%s.%s" % (self.place(l["x"]), l["f"])
 
     def block(self, b, ind):
@@ -672,7 +848,7 @@ class Render:
 def strip(x):
     """the abstract syntax without the renderer's annotations (types of lets / prints etc.)"""
     if isinstance(x, dict):
-        return {k: strip(v) for k, v in x.items() if k not in ("ty", "mut", "flat", "elem", "usize", "ret", "kind", "text", "plain", "sty", "order")
+        return {k: strip(v) for k, v in x.items() if k not in ("ty", "mut", "flat", "elem", "usize", "ret", "kind", "text", "plain", "sty", "order", "auto", "m")
                 or (k == "ty" and x.get("e") in ("int", "cast", "rec", "type"))}
     if isinstance(x, (list, tuple)):
         return [strip(v) for v in x]
